@@ -144,6 +144,37 @@ def stub_genefinding_some(record, _options) -> None:
     stub_genefinding(record, _options)
 
 
+def stub_genefinding_refusing(record, _options) -> None:
+    """ A gene finder that refuses the third record of a batch the way real ones do (two genes at one location). """
+    if int(record.record_index or 0) == 3:
+        raise ValueError("Multiple CDS features have the same location")
+    stub_genefinding(record, _options)
+
+
+def _failing_step_child(conn, shapes, cpus):
+    """ child process: the whole pre-processing step with a gene finder that refuses one record """
+    try:
+        import logging
+        from ..common import import_repo
+        import_repo()
+        logging.disable(logging.CRITICAL)
+        from antismash.common import record_processing
+        from antismash.config import build_config, destroy_config, update_config
+        destroy_config()
+        module = _GenefindingModule()
+        module.run_on_record = stub_genefinding_refusing
+        options = build_config(["--cpus", str(cpus), "--taxon", "bacteria"], isolated=True, modules=[module])
+        update_config({"triggered_limit": False, "minlength": 0, "limit": -1, "genefinding_tool": "prodigal"})
+        records = [build_record(shape, idx + 1, dirty=True) for idx, shape in enumerate(shapes)]
+        try:
+            record_processing.pre_process_sequences(records, options, module)
+            conn.send("")
+        except Exception as err:  # pylint: disable=broad-except
+            conn.send(type(err).__name__)
+    except Exception as err:  # pylint: disable=broad-except
+        conn.send("Machinery:" + type(err).__name__ + ":" + str(err)[:80])
+
+
 class _GenefindingModule:
     """ the shape pre_process_sequences expects of a gene finding module; run_on_record must survive pickling """
     run_on_record = staticmethod(stub_genefinding_some)
@@ -380,6 +411,31 @@ def observe_transport(case: dict, _scratch: str = None) -> dict:
             destroy_config()
             after = P.result(lambda: parallel_function(partial, ([rec] for rec in fresh()), cpus=cpus, timeout=GENEROUS),
                              [], _project_records)
+        elif via == "pre_process_error":
+            import multiprocessing
+            opts = {"genefinding_tool": "prodigal", "genefinding_gff3": "", "taxon": "bacteria"}
+            partial = functools.partial(record_processing.ensure_cds_info, stub_genefinding_refusing, **opts)
+            before_exc = ""
+            for rec in fresh():
+                destroy_config()
+                try:
+                    partial(record_processing.sanitise_sequence(rec))
+                except Exception as err:  # pylint: disable=broad-except
+                    before_exc = type(err).__name__
+                    break
+            destroy_config()
+            context = multiprocessing.get_context("spawn")
+            ours, theirs = context.Pipe(duplex=False)
+            child = context.Process(target=_failing_step_child, args=(theirs, case["shapes"], cpus))
+            child.start()
+            outcome = ours.recv() if ours.poll(60) else "Hang"
+            child.kill() if outcome == "Hang" else child.join(20)
+            if outcome == "Hang":
+                os.system(f"pkill -P {child.pid} >/dev/null 2>&1")
+            if outcome.startswith("Machinery:"):
+                raise MachineryError(outcome)
+            return {"op": "transport", "via": via, "cpus": cpus, "shapes": case["shapes"], "before": [], "before_exc": before_exc,
+                    "after": {"exc": outcome, "v": []}, "_stuck": False}
         elif via == "pre_process":
             # the whole pre-processing step (ids, sanitisation and gene finding through the parallel helper with the
             # configured number of workers) against its steps applied to one record after another in this process
@@ -618,6 +674,11 @@ def _transport_cases(ctx, rng, shapes):
         mixed = [dict(shape, genes=[], areas=[]) if pos % 3 != 2 else shape for pos, shape in enumerate(batch[:8])]
         for cpus in (1, 2, len(mixed) + 1):
             cases.append({"op": "transport", "input": {"via": "pre_process", "cpus": cpus, "shapes": mixed}, "sampled": False})
+        if number < 2:
+            # a gene finder that refuses the third record: the error has to come out for every number of workers
+            geneless = [dict(shape, genes=[], areas=[]) for shape in batch[:5]]
+            for cpus in (1, 2, 4):
+                cases.append({"op": "transport", "input": {"via": "pre_process_error", "cpus": cpus, "shapes": geneless}, "sampled": False})
     return cases
 
 
